@@ -363,17 +363,43 @@ def run(ctx):
                         cs.add("bucket_overrides")
                     if lab is True and sym_is_call(d, "Matcher::matches") and is_param(strip_sym(d)[2][1], 1):
                         cs.add("matches(name)")
+                    if lab is False and sym_is_call(d, "Matcher::matches"):
+                        cs.add("NOT matches(name)")
+                    if lab == "None" and d[0] == "field" and d[2] in ("buckets", "bucket_overrides"):
+                        cs.add("NOT " + d[2])
                 conds.add(tuple(sorted(cs)))
             return conds
+
+        def atoms(f):
+            """what the decision consults at all (used when the control-flow shape is a combinator chain)"""
+            out = set()
+            for g in f.region():
+                for c in nonforeign_calls(g):
+                    if c.is_("Matcher::matches"):
+                        a1 = strip_sym(arg_syms(c)[1])
+                        if is_param(a1, 1) or (g is not f and "('arg', 1" in repr(a1)):
+                            out.add("matches(name)")
+                txt = repr([s for _, _, s in g.body.stmts()]) + repr([g.body.term(i).get("args") for i in range(g.body.n)])
+                if "'f': 'bucket_overrides'" in txt:
+                    out.add("bucket_overrides")
+                if "'f': 'buckets'" in txt:
+                    out.add("buckets")
+            return out
         hb_d = [c.bb for c in gd.body.calls() if c.is_("Distribution::new_histogram")]
         sy = Sym(gt)
         hb_t = [i for i, k, s in gt.body.stmts() if s["k"] == "assign" and s["p"]["l"] == 0 and const_str(sy.rvalue(s["rv"], 0, frozenset())) == "histogram"]
         cd, ct = hist_conditions(gd, hb_d), hist_conditions(gt, hb_t)
         want = {("buckets",), ("bucket_overrides", "matches(name)")}
         ok = cd == want and ct == want
+        weaker = False
+        if not ok and all(x in want or x == () for x in cd | ct) and (() in cd or () in ct):
+            # the conditions are not spelled as if-let / loop (e.g. find()/any()/or()): decide the part that is visible
+            # in any spelling — both functions consult exactly the same three facts
+            full = {"matches(name)", "bucket_overrides", "buckets"}
+            ok = weaker = atoms(gd) == full and atoms(gt) == full and bool(hb_d) and bool(hb_t)
         others = {const_str(sy.rvalue(s["rv"], 0, frozenset())) for i, k, s in gt.body.stmts() if s["k"] == "assign" and s["p"]["l"] == 0} - {"histogram", None}
         ok = ok and others == {"summary"}
-        chk.ob("C08.f", f"{DB} [type agrees with variant]", ok, "histogram <=> global buckets set or an override matches the name, in both functions; otherwise summary" if ok else f"get_distribution builds a histogram under {sorted(cd)} but get_distribution_type says histogram under {sorted(ct)} (other strings: {sorted(others)})", gt.loc())
+        chk.ob("C08.f", f"{DB} [type agrees with variant]", ok, ("histogram <=> global buckets set or an override matches the name, in both functions; otherwise summary" if not weaker else "both functions decide from the same facts (override matchers on the name, override table, global buckets); combinator spelling: the disjunction itself is not re-derived") if ok else f"get_distribution builds a histogram under {sorted(cd)} but get_distribution_type says histogram under {sorted(ct)} (other strings: {sorted(others)})", gt.loc())
     else:
         chk.unrecognised("C08.f", "<anchor> DistributionBuilder::{get_distribution,get_distribution_type}", "missing")
 
